@@ -441,6 +441,13 @@ class Engine:
             from . import spec as _spec
             if name in B.SPEC_FUNCS or name in _spec.EXTRA:
                 return VBI('spec.' + name)
+            # a clause names a local that was renamed in the source (pyvc/aliases.py)
+            c = env
+            while c is not None:
+                al = getattr(c.locals, 'alias', None)
+                if al and name in al and al[name] in c.locals:
+                    return c.locals[al[name]]
+                c = c.closure
         raise Unsupported('unbound name %r' % name)
 
     # ------------------------------------------------------------ statements
@@ -678,6 +685,15 @@ class Engine:
         if env.fn.qual != c.func:
             return None
         hdr = _loop_header(st)
+        _am = getattr(c, '_alias', None) or {}
+        if _am:
+            # locals renamed in the source: the headers written in the sidecar are compared in the current spelling
+            from .contracts import _rename_text
+            for inv in c.invariants.values():
+                if inv.get('header') and '_header_written' not in inv:
+                    inv['_header_written'] = inv['header']
+                if inv.get('_header_written'):
+                    inv['header'] = _rename_text(inv['_header_written'], _am)
         # 1. an invariant written for exactly this header (robust against loops added/removed before it)
         same = [(o, inv) for o, inv in c.invariants.items() if inv.get('header') and _norm(inv['header']) == _norm(hdr)]
         if len(same) == 1:
@@ -741,7 +757,8 @@ class Engine:
         entry_vals = dict(env.locals)
         # havoc
         self.havoced = True
-        types = inv.get('types', {})
+        _al = getattr(env.locals, 'alias', None) or {}
+        types = {_al.get(k, k) if k not in assigned else k: v for k, v in inv.get('types', {}).items()}
         self.havoc_text = env.locals.get(inv.get('text_var', 'text'))
         for nm in sorted(assigned):
             if nm in env.locals or nm in types:
@@ -1834,7 +1851,9 @@ def _heap_targets(inv, st, env):
     the loop heap-write guard still rejects any write to an object that is not havoced."""
     out, missing = [], False
     for hx in inv.get('havoc_heap', []):
-        if hx.isidentifier() and hx not in env.locals:
+        if hx.isidentifier() and hx not in env.locals and hasattr(env.locals, 'resolve') and env.locals.resolve(hx) in env.locals:
+            out.append(env.locals.resolve(hx))
+        elif hx.isidentifier() and hx not in env.locals:
             missing = True
         else:
             out.append(hx)
